@@ -155,6 +155,27 @@ CLAIMED = {
         "with both pipe sentinels (each sets stderr; the second store is rejected by the setter). Trusted: pyvc engine + object-record model "
         "(an object belongs to one list slot) + z3/cvc5.",
    design="§3 C07"),
+ "C12": dict(
+   category="proof",
+   text="Session history H = disk ++ buffer with the accounting invariant len(disk) == _len - _skipped - len(buffer). JsonCommandField.__getitem__ "
+        "(every int key, every split): returns the field of H[key] (negative keys from the end), raises IndexError IFF the key is outside "
+        "[-len, len), reads the file only at an in-range non-negative position; __len__ of the field and of the history are _len - _skipped. "
+        "JsonHistory.append: an excluded command changes nothing; a kept one is counted once and goes last exactly once - into the buffer, or "
+        "into the single flusher created when the buffer reaches its size; flush hands over the whole buffer in order and empties it. "
+        "JsonHistoryFlusher.dump (loop invariant): every handed-over command is either staged or reported dropped exactly once (so len stays "
+        "consistent), the staged document is the loaded commands followed by the kept new ones in order, and without a HISTCONTROL rule "
+        "nothing is dropped. lazyjson._to_json_with_size for ALL values (recursion through its own contract): the reported length is the "
+        "length of the text and every child is told the absolute position at which its text really starts (loop invariants j == offset + "
+        "len(s)); json.dumps only in its ASCII mode (any other keyword fails a call precondition). Bounded stand-ins (not proved): real "
+        "writer -> UTF-8 file -> real LazyJSON on Unicode documents; real JsonHistory on every sequence of 4 (thorough 5) append/flush "
+        "operations x 3 HISTCONTROL settings x 3 buffer sizes against the list of appended commands (len, every in/out-of-range index, "
+        "slice, iteration).",
+   note="One genuine defect repaired (fix: ce6c11e: negative keys below -len read the on-disk offsets table from the end). Unverified: the "
+        "SQLite backend, flusher/reader thread interleavings (the FIFO ticket queue is ASSUMED to make a reader run after every earlier "
+        "flusher; flushers are joined in the bounded check), which index entry is stored under which key (abstracted container statements; "
+        "bounded check only), termination of the writer's recursion, LazyJSON._load_index / LJNode reads (bounded only), BaseShell history "
+        "entry creation, slices through __getitem__ (bounded only), `history clear`. Trusted: pyvc engine + models + z3.",
+   design="§3 C12"),
 }
 NA = {
  "C01": "equivalence of two grammars (PLY LALR tables vs CPython's PEG parser) is not a function contract; no contract within reach can express or decide it (DESIGN §3 C01)",
